@@ -175,7 +175,7 @@ fn main() {
         let tys: Vec<Ty> = (0..ncols).map(|_| *r.pick(&[Ty::Int, Ty::Int, Ty::Dbl, Ty::Dbl, Ty::Str])).collect();
         let nulls: Vec<u64> = (0..ncols).map(|_| *r.pick(&[0u64, 0, 30, 30, 60, 100])).collect();
         // data flavour: 0 exact small values; 1 integers around 2^53; 2 integers around 2^62; 3 doubles off the grid
-        let flavour = match r.below(10) { 0 => 1, 1 => 2, 2 => 3, _ => 0 };
+        let flavour = match r.below(10) { 0 | 1 => 1, 2 => 3, _ => 0 }; // (integer overflow itself, flavour 2, is C24's subject)
         let nrows = match r.below(10) {
             0 => 0,
             1 => 1,
@@ -207,6 +207,16 @@ fn main() {
                 let mut lit = gen_v(&mut r, tys[c], 0, 0);
                 if let V::Q(k2, _) = lit {
                     lit = V::Q(k2, false);
+                }
+                // half of the literals sit on the grid point of an existing value (so that = and the
+                // range ends hit, also next to the off-grid doubles)
+                if !rows.is_empty() && r.chance(1, 2) {
+                    match &rows[r.below(rows.len() as u64) as usize][c] {
+                        V::Int(i) if i.abs() < 1000 => lit = V::Int(*i),
+                        V::Q(k2, _) | V::Tiny(k2) => lit = V::Q(*k2, false),
+                        V::Str(s2) => lit = V::Str(s2.clone()),
+                        _ => {}
+                    }
                 }
                 // literals of the other numeric type too
                 if tys[c] == Ty::Int && r.chance(1, 4) {
@@ -314,19 +324,26 @@ fn main() {
                 }
             };
             let (a, b) = (canon(&out_col), canon(&out_row));
-            if let Outcome::Panic(m) = &out_col {
-                sum.finding(if took_columnar { "columnar-panic" } else { "panic" }, this, format!("the normal run panicked: {}", m), case.clone());
+            if let (Outcome::Panic(m), false) = (&out_col, matches!(out_row, Outcome::Panic(_))) {
+                sum.finding("columnar-panic", this, format!("the normal run panicked, the row path did not: {}", m), case.clone());
             } else if a != b {
                 let class = match (&a, &b) {
                     (Ok(_), Err(_)) => "columnar-succeeds-row-fails",
                     (Err(_), Ok(_)) => "columnar-fails-row-succeeds",
                     (Err(_), Err(_)) => "different-errors",
                     (Ok(x), Ok(y)) if x.len() != y.len() => "row-count-differs",
-                    _ => match flavour {
-                        1 | 2 => "large-integer-result-differs",
-                        3 => "off-grid-double-result-differs",
-                        _ => "result-differs",
-                    },
+                    _ => {
+                        // the one recorded defect: SUM over integers is returned as a DOUBLE by the
+                        // columnar path, so a sum beyond 2^53 is the rounded value of the row path's exact
+                        // INTEGER.  Every differing cell must be exactly that; anything else is new.
+                        let (rc, rr) = (out_col.rows().unwrap(), out_row.rows().unwrap());
+                        let only_rounded_sums = rc.len() == 1 && rr.len() == 1 && rc[0].len() == rr[0].len() && rc[0].iter().zip(rr[0].iter()).enumerate().all(|(i, (c, w))| {
+                            exact(c) == exact(w)
+                                || (matches!(sels.get(i), Some(Sel::Agg("SUM", _)) | Some(Sel::Bin("SUM", _, _, _)))
+                                    && matches!((c, w), (SqlValue::Double(f), SqlValue::Integer(n)) if n.unsigned_abs() > (1u64 << 53) && *f == *n as f64))
+                        });
+                        if only_rounded_sums { "integer-sum-above-2^53-rounded-to-double" } else { "result-differs" }
+                    }
                 };
                 if class != "different-errors" {
                     sum.finding(class, this, format!("normal run ({}) and row path disagree: {} vs {}", if took_columnar { "columnar" } else { "gate refused" }, show(&out_col), show(&out_row)), case.clone());
@@ -367,8 +384,8 @@ fn main() {
                 let preds_coq: Vec<String> = preds
                     .iter()
                     .map(|p| match p {
-                        Pred::Cmp(c, op, lit, left) => format!("PCmp {}%nat {} {} {}", c, opc(op), coq_v(lit), left),
-                        Pred::Between(c, lo, hi) => format!("PBetween {}%nat {} {}", c, coq_v(lo), coq_v(hi)),
+                        Pred::Cmp(c, op, lit, left) => format!("PCmp {}%nat {} ({}) {}", c, opc(op), coq_v(lit), left),
+                        Pred::Between(c, lo, hi) => format!("PBetween {}%nat ({}) ({})", c, coq_v(lo), coq_v(hi)),
                     })
                     .collect();
                 let obs = |o: &Outcome| match o {
